@@ -396,7 +396,7 @@ func (ca *ConnlistAnalyzer) includePairWithRepresentativePeer(pe *eval.PolicyEng
 	}
 	// if one peer is fake ingress-pod and the other is a representative peer
 	// todo: might check if peer is a fake ingress-controller by checking name and fakePod flag (within new pe func)
-	if (isRepSrc || isRepDst) && (src.Name() == common.IngressPodName || dst.Name() == common.IngressPodName) {
+	if (isRepSrc || isRepDst) && (src.String() == common.IngressPodString || dst.String() == common.IngressPodString) {
 		return false
 	}
 	return true
